@@ -96,7 +96,7 @@ func NewWorld(cfg Config) *World {
 	logs.SetLogger(func(logs.Entry) {})
 	verifrt.UseVirtualTickers(true)
 	verifrt.UseVirtualClock(true)
-	verifrt.SetClock(time.Unix(1_700_000_000, 0), 1009*time.Nanosecond)
+	verifrt.SetClock(time.Unix(1_700_000_000, 0), time.Nanosecond)
 	key, err := crypto.HexToECDSA("4c0883a69102937d6231471b5dbb6204fe5129617082792ae468d01a3f362318")
 	if err != nil {
 		panic(err)
@@ -274,6 +274,12 @@ func (w *World) Step(i int, st M) (M, error) {
 				res = stepResult{ret: "skipped"}
 				break
 			}
+		}
+		if gets(req, "k") == "PingResp" && mhas(req, "ref") {
+			w.resolvePing(c, req)
+		}
+		if adv := geti(req, "adv"); adv > 0 {
+			verifrt.Advance(time.Duration(adv) * time.Microsecond)
 		}
 		msg, err := w.build(req)
 		if err != nil {
@@ -541,6 +547,7 @@ func (w *World) projectState() M {
 			}
 			sort.Ints(own)
 			cm["own"] = own
+			cm["lat"] = w.projectLat(p)
 		}
 		cs = append(cs, cm)
 	}
@@ -731,4 +738,61 @@ func (w *World) sidOf(cid int) int {
 		return sidBack(w.store.GlobalSessionID(s.ID))
 	}
 	return 0
+}
+
+// resolvePing turns a symbolic reference of a ping response ("open": the
+// outstanding ping, "old": one answered before, "unknown") into a concrete id.
+func (w *World) resolvePing(c *Conn, req M) {
+	ref := gets(req, "ref")
+	pick := 0
+	if p := c.rh.CurrentParticipant(); p != nil && p.SignedLatency != nil {
+		var open, done []int
+		for id, d := range p.SignedLatency.PingRequests {
+			if d.End.IsZero() {
+				open = append(open, w.pingIndex(id))
+			} else {
+				done = append(done, w.pingIndex(id))
+			}
+		}
+		sort.Ints(open)
+		sort.Ints(done)
+		switch {
+		case ref == "open" && len(open) > 0:
+			pick = open[0]
+		case ref == "old" && len(done) > 0:
+			pick = done[0]
+		case ref == "last" && len(done) > 0:
+			pick = done[len(done)-1]
+		}
+	}
+	if pick == 0 {
+		pick = 7 // an id the server never issued
+	}
+	req["pidx"] = pick
+	if real, ok := w.pingReal(pick); ok {
+		req["rid"] = int(real)
+	} else {
+		req["rid"] = pick
+	}
+}
+
+func (w *World) projectLat(p *models.Participant) M {
+	sl := p.SignedLatency
+	open, done := []int{}, [][]int{}
+	if sl == nil {
+		return M{"left": 0, "open": open, "done": done}
+	}
+	for id, d := range sl.PingRequests {
+		if d.End.IsZero() {
+			open = append(open, w.pingIndex(id))
+		} else {
+			done = append(done, []int{w.pingIndex(id), int(d.End.Sub(d.Start).Microseconds())})
+		}
+	}
+	sort.Ints(open)
+	left := int(sl.Iteration)
+	if sl.Iteration > 1<<31 {
+		left = -1 // underflow of the unsigned round counter
+	}
+	return M{"left": left, "open": open, "done": sortRows(done)}
 }
